@@ -227,12 +227,40 @@ def fresh_seq(st, n, elem_shape, hint, measure=None):
 
                     r = SSeq(mk_int(lf(*zi)), getter, shape.elem, psum, name=f"{base}{path}[]")
                     r.measure = shape.measure
+                    r.row_id = (f"{base}{path}", tuple(zi))  # identity of the row (see below)
                     return r
 
                 return g
 
-            def g(*idx, lf=lf, inner=inner, shape=shape):
-                return SSeq(mk_int(lf(*zs(idx))), lambda j: inner(*idx, j), shape.elem, None, name=f"{base}{path}[]")
+            # rows of records (Tup) / variant records (Union of Tups): component prefix sums of each row, for the
+            # plain-int components every alternative has -- one function per component taking the row's indices and
+            # the position, defining equation instantiated wherever an element of the row is read (as for a flat list)
+            ralts = shape.elem.cases() if isinstance(shape.elem, (S.Union, S.Tup)) else []
+            rcomps = []
+            if ralts and all(isinstance(a_, S.Tup) for a_ in ralts):
+                rcomps = [c for c in range(min(len(a_.items) for a_ in ralts)) if all(isinstance(a_.items[c], S._Int) for a_ in ralts)]
+            rfns = {c: z3.Function(f"{base}{path}[].{c}$psum", *dom, z3.IntSort(), z3.IntSort()) for c in rcomps}
+
+            def g(*idx, lf=lf, inner=inner, shape=shape, rfns=rfns):
+                def rget(j):
+                    v = inner(*idx, j)
+                    zj = zint(j)
+                    for c, f in rfns.items():
+                        cur().assume(f(*zs(idx), zj + 1) == f(*zs(idx), zj) + zint(elt_comp(v, c)))
+                    return v
+
+                row = SSeq(mk_int(lf(*zs(idx))), rget if rfns else (lambda j: inner(*idx, j)), shape.elem, None, name=f"{base}{path}[]")
+                for c, f in rfns.items():
+
+                    def cps(k, f=f):
+                        cur().assume(f(*zs(idx), z3.IntVal(0)) == 0)
+                        return mk_int(f(*zs(idx), zint(k)))
+
+                    row.cpsum[c] = cps
+                # identity of the row: (the nested list's name, the row's index terms) -- rows are immutable values, so a
+                # deterministic function of a row is a function of this identity (protocol.encode_arg)
+                row.row_id = (f"{base}{path}", tuple(zs(idx)))
+                return row
 
             return g
         if isinstance(shape, S.Union):
@@ -302,6 +330,33 @@ def fresh_seq(st, n, elem_shape, hint, measure=None):
             return mk_int(ps(zk))
 
     r = SSeq(n, getter, elem_shape, psum, name=base)
+    if isinstance(elem_shape, S.Union):
+        # variant records (e.g. layout segments (cols, offs) | (cols, offs, end)): component prefix sums for the
+        # plain-int components that EVERY alternative has at the same position -- same model field as for Tup
+        # elements below, the summand being the non-forking selection `elt_comp` over the alternatives
+        alts = elem_shape.cases()
+        comps = []
+        if alts and all(isinstance(a_, S.Tup) for a_ in alts):
+            comps = [c for c in range(min(len(a_.items) for a_ in alts)) if all(isinstance(a_.items[c], S._Int) for a_ in alts)]
+        if comps:
+            fns = {c: z3.Function(f"{base}.{c}$psum", z3.IntSort(), z3.IntSort()) for c in comps}
+            var_get = getter
+
+            def getter(i, fns=fns, var_get=var_get):  # noqa: F811
+                v = var_get(i)
+                zi = zint(i)
+                for c, f in fns.items():
+                    cur().assume(f(zi + 1) == f(zi) + zint(elt_comp(v, c)))
+                return v
+
+            r.getter = getter
+            for c, f in fns.items():
+
+                def cps(k, f=f):
+                    cur().assume(f(z3.IntVal(0)) == 0)
+                    return mk_int(f(zint(k)))
+
+                r.cpsum[c] = cps
     if isinstance(elem_shape, S.Tup):
         # component prefix sums for the plain-int components of a tuple element (e.g. the run lengths of a
         # run-length list [(attr, run), ...]): one uninterpreted function per component, defining equation
@@ -377,21 +432,46 @@ def _tuple_expand(items):
     return ex
 
 
+def elt_comp(x, c):
+    """Component c of a sequence element that is a tuple, or a variant value (SCases) every alternative of which is
+    a tuple with an int-like component c (variant records sharing their leading fields, e.g. the layout segments
+    (cols, offs) | (cols, offs, end) | (cols, offs, bytes)): a non-forking if-then-else over the alternatives.
+    None when the element has no int-like component c.  (CPython: `x[c]` of whichever tuple x is.)"""
+    def intlike(v):
+        return V.is_num(v) and not isinstance(v, (bool, SBool))
+
+    if isinstance(x, tuple):
+        return x[c] if c < len(x) and intlike(x[c]) else None
+    if isinstance(x, V.SCases):
+        vals = [elt_comp(v, c) for _g, v in x.cases]
+        if not vals or any(v is None for v in vals):
+            return None
+        r = vals[-1]
+        for (g, _v), val in zip(reversed(x.cases[:-1]), reversed(vals[:-1])):
+            r = ite(mk_bool(g), val, r)
+        return r
+    return None
+
+
 def _tuple_cpsum(items):
-    """Component prefix sums of a concrete tuple of equal-arity tuples (int-like components only)."""
+    """Component prefix sums of a concrete tuple of tuples (int-like components only).  Items may differ in arity
+    and may be variant values (SCases): component c is summed when every item has an int-like component c."""
     out = {}
-    if not items or not all(isinstance(x, tuple) for x in items):
+    if not items or not all(isinstance(x, (tuple, V.SCases)) for x in items):
         return out
-    ar = len(items[0])
-    if any(len(x) != ar for x in items):
-        return out
+    def arity(x):
+        if isinstance(x, tuple):
+            return len(x)
+        return min(len(v) for _g, v in x.cases) if all(isinstance(v, tuple) for _g, v in x.cases) else 0
+
+    ar = min(arity(x) for x in items)
     for c in range(ar):
-        if all(V.is_num(x[c]) and not isinstance(x[c], (bool, SBool)) for x in items):
+        if all(elt_comp(x, c) is not None for x in items):
 
             def cps(k, c=c, items=items):
                 acc = [0]
                 for x in items:
-                    acc.append(acc[-1] + x[c])
+                    acc.append(acc[-1] + elt_comp(x, c))
                 if isinstance(k, int):
                     return acc[max(0, min(k, len(items)))]
                 r = acc[-1]
@@ -659,10 +739,10 @@ def seq_update(s, k, v):
             return ite(j <= k, old.psum(j), old.psum(j) + nv - ov)
 
     r = SSeq(s.length, getter, s.shape, psum, "upd")
-    if isinstance(v, tuple):
+    if isinstance(v, (tuple, V.SCases)):
         for c, f in old.cpsum.items():
-            if c < len(v) and V.is_num(v[c]):
-                r.cpsum[c] = lambda j, f=f, c=c: ite(j <= k, f(j), f(j) + v[c] - old.get(k)[c])
+            if elt_comp(v, c) is not None:
+                r.cpsum[c] = lambda j, f=f, c=c: ite(j <= k, f(j), f(j) + elt_comp(v, c) - elt_comp(old.get(k), c))
         if old.expand is not None and 1 in r.cpsum and len(v) == 2:
             def ex(p):
                 lo = old.cpsum[1](k)
@@ -940,3 +1020,167 @@ class ModelObj(Sym):
 
     def __eq__(self, o):
         return self is o
+
+
+class ObjDict(ModelObj):
+    """`obj.__dict__` of a modelled object (SObj): a LIVE view of its instance attributes (the model's fields), as
+    CPython's instance `__dict__` is.  Modelled (names are constant strings):
+        d[name] (KeyError), d[name] = v, del d[name] (KeyError), name in d, len(d), bool(d), d.get(name[, default]),
+        d.update(<another object's __dict__> | <dict with constant keys>), d.copy() / dict(d) (a constant-key dict).
+    `update` stores the SAME values under the same names: a mutable value (dict, list, object) is afterwards shared
+    by the two objects (reference semantics of the model objects), exactly as in CPython -- which is the point of
+    modelling it: `new.__dict__.update(old.__dict__)` aliases every container attribute of `old`.
+    Cross-checked against CPython by `xcheck_objdict`."""
+
+    py_class = dict
+
+    def __init__(self, obj):
+        self.obj = obj
+
+    def snapshot(self):
+        return self
+
+    def _name(self, k):
+        if not isinstance(k, str) or isinstance(k, Sym):
+            raise Unsupported(f"instance __dict__ with a non-constant attribute name {k!r}")
+        return k
+
+    def py_truth(self, st):
+        return bool(self.obj.fields)
+
+    def py_len(self, st):
+        return len(self.obj.fields)
+
+    def py_contains(self, ip, st, x):
+        return self._name(x) in self.obj.fields
+
+    def py_getitem(self, ip, st, k):
+        k = self._name(k)
+        if k not in self.obj.fields:
+            from .engine import PyRaise, SExc
+
+            raise PyRaise(SExc(KeyError, (k,), site="builtin"))
+        return self.obj.fields[k]
+
+    def py_setitem(self, ip, st, k, v):
+        self.obj.fields[self._name(k)] = v
+
+    def py_delitem(self, ip, st, k):
+        k = self._name(k)
+        if k not in self.obj.fields:
+            from .engine import PyRaise, SExc
+
+            raise PyRaise(SExc(KeyError, (k,), site="builtin"))
+        del self.obj.fields[k]
+
+    def py_iter(self, ip, st):
+        return tuple(self.obj.fields)
+
+    def py_call(self, ip, st, name, args, kwargs):
+        f = self.obj.fields
+        if name == "update" and len(args) <= 1:
+            for a in args:
+                a = st.force(a) if st is not None else a
+                if isinstance(a, ObjDict):
+                    src = dict(a.obj.fields)
+                elif isinstance(a, DRef):
+                    src = dict(a.d)
+                elif isinstance(a, dict):
+                    src = dict(a)
+                else:
+                    raise Unsupported(f"instance __dict__.update({type(a).__name__})")
+                for k, v in src.items():
+                    f[self._name(k)] = v  # the same value object: shared afterwards
+            for k, v in kwargs.items():
+                f[k] = v
+            return None
+        if name == "get" and 1 <= len(args) <= 2 and not kwargs:
+            return f.get(self._name(args[0]), args[1] if len(args) > 1 else None)
+        if name == "copy" and not args:
+            return DRef(f)
+        if name == "keys" and not args:
+            return tuple(f)
+        if name == "values" and not args:
+            return tuple(f.values())
+        if name == "items" and not args:
+            return tuple(f.items())
+        if name == "__contains__" and len(args) == 1:
+            return self._name(args[0]) in f
+        raise Unsupported(f"method {name} of an instance __dict__")
+
+
+def xcheck_objdict():
+    """Concrete cross-check of ObjDict against CPython: the same operation sequence on a real object's `__dict__` and
+    on the model of an object with the same attributes; after every step the attribute names, the values and -- for
+    mutable values -- WHICH objects are shared must agree.  Returns (ok, detail)."""
+    import itertools
+
+    class _R:
+        pass
+
+    bad = []
+    n = 0
+    ops = ("update-from-other", "update-const", "set", "del", "get", "in", "len", "getitem-missing", "copy")
+    for seq in itertools.product(ops, repeat=2):
+        ra, rb = _R(), _R()
+        la, lb = [1], [2]
+        ra.x, ra.shared = 1, la
+        rb.x, rb.y, rb.shared = 5, 6, lb
+        ma, mb = SObj(_R, dict(x=1, shared=la)), SObj(_R, dict(x=5, y=6, shared=lb))
+        da, db = ObjDict(ma), ObjDict(mb)
+        for op in seq:
+            n += 1
+            try:
+                if op == "update-from-other":
+                    ra.__dict__.update(rb.__dict__)
+                    da.py_call(None, None, "update", [db], {})
+                elif op == "update-const":
+                    ra.__dict__.update({"z": 9, "x": 3})
+                    da.py_call(None, None, "update", [DRef({"z": 9, "x": 3})], {})
+                elif op == "set":
+                    ra.__dict__["w"] = 4
+                    da.py_setitem(None, None, "w", 4)
+                elif op == "del":
+                    outcome = []
+                    for side in (lambda: ra.__dict__.__delitem__("x"), lambda: da.py_delitem(None, None, "x")):
+                        try:
+                            side()
+                            outcome.append("ok")
+                        except Exception as ex:  # noqa: BLE001
+                            outcome.append(getattr(getattr(ex, "exc", None), "cls", type(ex)).__name__)
+                    if outcome[0] != outcome[1]:
+                        bad.append((seq, op, outcome))
+                elif op == "get":
+                    if ra.__dict__.get("y", 0) != da.py_call(None, None, "get", ["y", 0], {}):
+                        bad.append((seq, op))
+                elif op == "in":
+                    if ("y" in ra.__dict__) != da.py_contains(None, None, "y"):
+                        bad.append((seq, op))
+                elif op == "len":
+                    if len(ra.__dict__) != da.py_len(None) or bool(ra.__dict__) != da.py_truth(None):
+                        bad.append((seq, op))
+                elif op == "getitem-missing":
+                    try:
+                        ra.__dict__["nope"]
+                        real = "value"
+                    except KeyError:
+                        real = "KeyError"
+                    try:
+                        da.py_getitem(None, None, "nope")
+                        mod = "value"
+                    except Exception as ex:  # noqa: BLE001
+                        mod = getattr(getattr(ex, "exc", None), "cls", type(ex)).__name__
+                    if real != mod:
+                        bad.append((seq, op, real, mod))
+                elif op == "copy":
+                    c = da.py_call(None, None, "copy", [], {})
+                    if dict(ra.__dict__) != c.d or c.d is ma.fields:
+                        bad.append((seq, op))
+            except Exception as ex:  # noqa: BLE001
+                bad.append((seq, op, repr(ex)))
+            if list(ra.__dict__) != list(ma.fields) or any(ra.__dict__[k] != ma.fields[k] for k in ma.fields):
+                bad.append((seq, op, "contents differ"))
+            # sharing: the list under `shared` is rb's list in CPython exactly when it is mb's list in the model
+            if ("shared" in ra.__dict__) and ((ra.__dict__["shared"] is lb) != (ma.fields["shared"] is lb)):
+                bad.append((seq, op, "sharing differs"))
+    return (not bad, f"{n} instance-__dict__ operations compared with CPython (contents and sharing), mismatches: {bad[:3]}")
